@@ -25,6 +25,8 @@ import (
 	"sync"
 	"testing"
 	"time"
+
+	"verif/harness/bub"
 )
 
 // Tier of a run.
@@ -258,6 +260,8 @@ func (r *Runner) Case(name string, desc any, fn func(c *Case)) {
 	r.executed++
 	r.mu.Unlock()
 	t0 := time.Now()
+	stopWatchdog := r.startWatchdog(i, name)
+	defer stopWatchdog()
 	func() {
 		defer func() {
 			if p := recover(); p != nil {
@@ -508,4 +512,83 @@ func (r *Runner) Require(name string, fn func() error) bool {
 	}
 	r.Count("require_ok:"+name, 1)
 	return true
+}
+
+// ---------------------------------------------------------------------------
+// wall-clock watchdog (keeps runs finite; its firing is never a verdict)
+
+// StallLimit is the per-case wall-clock limit after which the child gives up
+// on the case: it logs two goroutine dumps taken 3 s apart and exits so that
+// the driver can continue with the remaining cases in a fresh process.
+var StallLimit = 120 * time.Second
+
+func dumpAll() string {
+	buf := make([]byte, 1<<22)
+	n := runtime.Stack(buf, true)
+	return string(buf[:n])
+}
+
+func (r *Runner) startWatchdog(i int, name string) (stop func()) {
+	done := make(chan struct{})
+	go func() {
+		t := time.NewTimer(StallLimit)
+		defer t.Stop()
+		select {
+		case <-done:
+			return
+		case <-t.C:
+		}
+		d1 := dumpAll()
+		time.Sleep(3 * time.Second)
+		select {
+		case <-done:
+			return
+		default:
+		}
+		d2 := dumpAll()
+		r.write(rec{"t": "stall", "i": i, "name": name, "same": stripDump(d1) == stripDump(d2), "dump": clip(d2, 60000)}, true)
+		os.Exit(3)
+	}()
+	return func() { close(done) }
+}
+
+func clip(s string, n int) string {
+	if len(s) > n {
+		return s[:n] + "\n…"
+	}
+	return s
+}
+
+// stripDump removes durations ("[select, 2 minutes]") so two dumps of an
+// unchanged blocked set compare equal.
+func stripDump(s string) string {
+	var b strings.Builder
+	for _, l := range strings.Split(s, "\n") {
+		if strings.HasPrefix(l, "goroutine ") {
+			if i := strings.Index(l, ","); i > 0 {
+				l = l[:i] + "]:"
+			}
+		}
+		b.WriteString(l)
+		b.WriteByte('\n')
+	}
+	return b.String()
+}
+
+// Bubble runs fn as the root of a fresh synctest bubble (virtual time). A
+// panic of the root goroutine is classified like any other case panic; the
+// bubble's deadlock / leak outcomes are returned for the engine to judge.
+func (c *Case) Bubble(fn func()) bub.Outcome {
+	out := bub.Run(c.R.T, fmt.Sprintf("case%d", c.Index), fn)
+	if out.Panic != "" {
+		c.panicked(out.Panic, out.Stack)
+	}
+	return out
+}
+
+// Unique records values that must be pairwise distinct over the whole run
+// (all children); the driver reports a duplicate as a violation with the
+// given signature.
+func (r *Runner) Unique(namespace, signature string, values ...string) {
+	r.write(rec{"t": "unique", "ns": namespace, "sig": signature, "values": values}, false)
 }
